@@ -87,3 +87,61 @@ pub fn inspector_logs_inputs() -> String {
         i.call_ends, i.call_end_bad, i.create_ends, i.create_end_bad, if inputs_ok { "" } else { " MISMATCH" }
     )
 }
+
+// ---------------------------------------------------------------- C31: an EVM reused across a spec change behaves like a fresh one of the new spec
+fn reuse_run(first: Option<SpecId>, spec: SpecId, to: Address, input: Bytes) -> (u64, bool, bool, SpecId) {
+    let sd = address!("2000000000000000000000000000000000000003");
+    let mut db = CacheDB::new(EmptyDB::default());
+    db.insert_account_info(CALLER, AccountInfo { nonce: 0, balance: U256::from(1_000_000_000u64), code_hash: B256::default(), code: None });
+    let stop = Bytecode::new_legacy(Bytes::from_static(&[0x00]));
+    db.insert_account_info(TARGET, AccountInfo { nonce: 1, balance: U256::ZERO, code_hash: stop.hash_slow(), code: Some(stop) });
+    // PUSH20 <CALLER> SELFDESTRUCT
+    let mut c = vec![0x73];
+    c.extend_from_slice(CALLER.as_slice());
+    c.push(0xff);
+    let sdc = Bytecode::new_legacy(Bytes::from(c));
+    db.insert_account_info(sd, AccountInfo { nonce: 1, balance: U256::from(7), code_hash: sdc.hash_slow(), code: Some(sdc) });
+    let mut evm = Evm::builder()
+        .with_db(db)
+        .with_spec_id(first.unwrap_or(spec))
+        .modify_tx_env(|tx| {
+            tx.caller = CALLER;
+            tx.transact_to = TxKind::Call(TARGET);
+            tx.gas_limit = 1_000_000;
+        })
+        .build();
+    if first.is_some() {
+        let _ = evm.transact().expect("first tx runs");
+        evm.modify_spec_id(spec);
+    }
+    evm.context.evm.env.tx.transact_to = TxKind::Call(to);
+    evm.context.evm.env.tx.data = input;
+    let r = evm.transact().expect("tx runs");
+    let destroyed = r.state.get(&sd).map(|a| a.is_selfdestructed()).unwrap_or(false);
+    (r.result.gas_used(), r.result.is_success(), destroyed, evm.context.evm.journaled_state.spec)
+}
+
+pub fn reuse_spec_change() -> String {
+    let sd = address!("2000000000000000000000000000000000000003");
+    let modexp = address!("0000000000000000000000000000000000000005");
+    let mut input = vec![0u8; 96];
+    input[31] = 1;
+    input[63] = 1;
+    input[95] = 1;
+    input.extend_from_slice(&[2, 3, 5]);
+    let mut out = String::new();
+    // same precompile addresses, different pricing: ISTANBUL -> BERLIN reprices MODEXP
+    let reused = reuse_run(Some(SpecId::ISTANBUL), SpecId::BERLIN, modexp, Bytes::from(input.clone()));
+    let fresh = reuse_run(None, SpecId::BERLIN, modexp, Bytes::from(input));
+    out += &format!("[reuse_precompiles ISTANBUL->BERLIN modexp gas_reused={} gas_fresh={}{}] ", reused.0, fresh.0, if reused.0 == fresh.0 && reused.1 == fresh.1 { "" } else { " MISMATCH" });
+    // the journal applies fork rules of its own (EIP-6780): CANCUN -> SHANGHAI
+    let reused = reuse_run(Some(SpecId::CANCUN), SpecId::SHANGHAI, sd, Bytes::new());
+    let fresh = reuse_run(None, SpecId::SHANGHAI, sd, Bytes::new());
+    out += &format!("[reuse_journal_spec CANCUN->SHANGHAI selfdestruct destroyed_reused={} destroyed_fresh={} journal_spec_reused={:?} gas_reused={} gas_fresh={}{}] ",
+        reused.2, fresh.2, reused.3, reused.0, fresh.0, if reused.2 == fresh.2 && reused.0 == fresh.0 && reused.3 == SpecId::SHANGHAI { "" } else { " MISMATCH" });
+    let reused = reuse_run(Some(SpecId::SHANGHAI), SpecId::CANCUN, sd, Bytes::new());
+    let fresh = reuse_run(None, SpecId::CANCUN, sd, Bytes::new());
+    out += &format!("[reuse_journal_spec SHANGHAI->CANCUN selfdestruct destroyed_reused={} destroyed_fresh={} journal_spec_reused={:?}{}] ",
+        reused.2, fresh.2, reused.3, if reused.2 == fresh.2 && reused.0 == fresh.0 && reused.3 == SpecId::CANCUN { "" } else { " MISMATCH" });
+    out
+}
